@@ -41,6 +41,11 @@ type kind[E any] struct {
 	mk   func(i int) E
 	same func(a, b E) bool
 	show func(E) string // deterministic rendering for messages (nil: positions only)
+	// eqs (optional): index of the first j with p[j] != want[j] under same, or -1; one call per piece instead of
+	// two indirect calls per element.
+	eqs func(p, want []E) int
+	// eqPairs (optional): all pairs ps[i] == {want[i], want[i+1]} under same (len(want) = len(ps)+1).
+	eqPairs func(ps [][2]E, want []E) bool
 	// at: "a is (by value) the element made for position i" - used when the oracle keeps no copy of the input and
 	// recomputes the expected element from the formula; nil = same(a, mk(i)).
 	at func(a E, i int) bool
@@ -67,6 +72,24 @@ type (
 	}
 	zArrz [3]struct{}
 )
+
+func eqsOf[E comparable](p, want []E) int {
+	for j := range p {
+		if p[j] != want[j] {
+			return j
+		}
+	}
+	return -1
+}
+
+func eqPairsOf[E comparable](ps [][2]E, want []E) bool {
+	for i := range ps {
+		if ps[i][0] != want[i] || ps[i][1] != want[i+1] {
+			return false
+		}
+	}
+	return true
+}
 
 func always[E any](a, b E) bool { return true }
 func zero[E any](int) (z E)     { return }
@@ -182,6 +205,8 @@ var (
 var allKinds = []string{"int", "string", "f64", "ptr", "nc", "wide", "xwide", "u8", "b3", "i32", "iface", "z-struct", "z-arr0", "z-nc", "z-pad", "z-arrz"}
 
 func init() {
+	kInt.eqs, kStr.eqs, kPtr.eqs, kWide.eqs, kXWide.eqs, kU8.eqs, kB3.eqs, kI32.eqs = eqsOf[int], eqsOf[string], eqsOf[*int], eqsOf[wideElem], eqsOf[xwideElem], eqsOf[uint8], eqsOf[b3Elem], eqsOf[int32]
+	kInt.eqPairs, kStr.eqPairs, kPtr.eqPairs, kWide.eqPairs, kXWide.eqPairs, kU8.eqPairs, kB3.eqPairs, kI32.eqPairs = eqPairsOf[int], eqPairsOf[string], eqPairsOf[*int], eqPairsOf[wideElem], eqPairsOf[xwideElem], eqPairsOf[uint8], eqPairsOf[b3Elem], eqPairsOf[int32]
 	if unsafe.Sizeof(struct{}{})+unsafe.Sizeof([0]int{})+unsafe.Sizeof([0]func(){})+unsafe.Sizeof(zPad{})+unsafe.Sizeof(zArrz{}) != 0 {
 		panic("c13: a zero-size kind is not zero-size")
 	}
@@ -235,10 +260,13 @@ func dispatch[E any](c Case, k *kind[E]) pbt.Outcome {
 
 // zstLimit: largest number of pieces of a zero-size type a function is asked to produce (its result
 // container and its loop are proportional to that number although the input itself costs nothing).
-const zstLimit = 1<<20 + 16
+const zstLimit = 1 << 16
+
+// zstFuncLimit: the same for the ...Func variants (time only).
+const zstFuncLimit = 1<<17 + 16
 
 // maxRealN bounds the length of slices of real (non-zero-size) elements (replay files are external input).
-const maxRealN = 1 << 22
+const maxRealN = 1<<25 + 64
 
 // fullCompare: up to this many element comparisons per Windowed/WindowedFunc call every element of every
 // window is compared; beyond, 64 positions spread over each window (both ends included).
@@ -337,6 +365,9 @@ func (e *env[S, E]) mismatch(p S, base int, sampled bool) int {
 		return -1
 	}
 	L := len(p)
+	if (!sampled || L <= 80) && e.orig != nil && e.k.eqs != nil && base >= 0 && base+L <= len(e.orig) {
+		return e.k.eqs(p, e.orig[base:base+L])
+	}
 	if !sampled || L <= 80 {
 		for j := 0; j < L; j++ {
 			if !e.is(p[j], base+j) {
@@ -531,6 +562,9 @@ func (e *env[S, E]) checkPairs(name string, base, n int, ps [][2]E) string {
 			return e.fail("%s(n=%d): right after the call returned: %s", name, n, m)
 		}
 	}
+	if e.orig != nil && e.k.eqPairs != nil && want > 0 && base >= 0 && base+want+1 <= len(e.orig) && e.k.eqPairs(ps, e.orig[base:base+want+1]) {
+		return ""
+	}
 	for i, p := range ps {
 		if m := e.pair(i, p[0], p[1], base); m != "" {
 			return e.fail("%s(n=%d): %s", name, n, m)
@@ -577,6 +611,9 @@ func (e *env[S, E]) unchanged(back S) string {
 
 func (e *env[S, E]) feasible(count int) bool { return !e.k.zst || count <= zstLimit }
 
+// feasibleFunc: the ...Func variants need no memory per piece, only time.
+func (e *env[S, E]) feasibleFunc(count int) bool { return !e.k.zst || count <= zstFuncLimit }
+
 // all six functions on s, which must be the n elements at absolute positions base.. of e; ctx prefixes messages.
 // Returns the first violation and the names of the functions that were skipped as infeasible.
 func (e *env[S, E]) six(ctx string, s S, base, size int) (string, []string) {
@@ -589,9 +626,13 @@ func (e *env[S, E]) some(fn, ctx string, s S, base, size int) (string, []string)
 	var skipped []string
 	on := func(letter string) bool { return fn == "" || strings.Contains(fn, letter) }
 	if !on("c") {
-	} else if e.feasible(chunkCount(n, size)) {
-		if m := e.checkChunks(ctx+"Chunk", base, n, size, slices.Chunk(s, size)); m != "" {
-			return m, nil
+	} else if e.feasibleFunc(chunkCount(n, size)) {
+		if e.feasible(chunkCount(n, size)) {
+			if m := e.checkChunks(ctx+"Chunk", base, n, size, slices.Chunk(s, size)); m != "" {
+				return m, nil
+			}
+		} else {
+			skipped = append(skipped, "skip:chunk-result-only")
 		}
 		cb, done := e.chunkVisitor(ctx+"ChunkFunc", base, n, size)
 		slices.ChunkFunc(s, size, cb)
@@ -602,9 +643,13 @@ func (e *env[S, E]) some(fn, ctx string, s S, base, size int) (string, []string)
 		skipped = append(skipped, "skip:chunk")
 	}
 	if !on("w") {
-	} else if e.feasible(windowCount(n, size)) {
-		if m := e.checkWindows(ctx+"Windowed", base, n, size, slices.Windowed(s, size)); m != "" {
-			return m, nil
+	} else if e.feasibleFunc(windowCount(n, size)) {
+		if e.feasible(windowCount(n, size)) {
+			if m := e.checkWindows(ctx+"Windowed", base, n, size, slices.Windowed(s, size)); m != "" {
+				return m, nil
+			}
+		} else {
+			skipped = append(skipped, "skip:windowed-result-only")
 		}
 		cb, done := e.windowVisitor(ctx+"WindowedFunc", base, n, size)
 		slices.WindowedFunc(s, size, cb)
@@ -615,7 +660,8 @@ func (e *env[S, E]) some(fn, ctx string, s S, base, size int) (string, []string)
 		skipped = append(skipped, "skip:windowed")
 	}
 	if !on("p") {
-	} else if e.feasible(pairCount(n)) {
+	} else if e.feasibleFunc(pairCount(n)) {
+		// Pairs of a zero-size type costs no memory either
 		if m := e.checkPairs(ctx+"Pairs", base, n, slices.Pairs(s)); m != "" {
 			return m, nil
 		}
@@ -743,7 +789,13 @@ func runKind[S ~[]E, E any](c Case, k *kind[E]) pbt.Outcome {
 		}
 		if len(skipped) > 0 {
 			out.Labels = append(out.Labels, skipped...)
-			if all := len(c.Fn) == len(skipped) || len(skipped) == 3; all {
+			full := 0
+			for _, l := range skipped {
+				if !strings.HasSuffix(l, "-result-only") {
+					full++
+				}
+			}
+			if full == 3 || (c.Fn != "" && full == len(c.Fn)) {
 				out.Skipped = true
 				out.NonTrivial = false
 			}
@@ -877,6 +929,20 @@ func runNested[S ~[]E, E any](e *env[S, E], s S, base int, c Case) string {
 	}
 	if m, _ := e.six("after the caller overwrote earlier results: ", s, base, size); m != "" {
 		return m
+	}
+	// the caller changes the elements in place: every function must work from the input as it is now
+	// (a result remembered for "the same slice" would be stale)
+	if !e.k.zst && e.orig != nil && n > 0 {
+		for i := range s {
+			v := e.k.mk(base + i + 7000)
+			s[i], e.orig[base+i] = v, v
+		}
+		if m, _ := e.six("after the caller changed the elements of the input in place: ", s, base, size); m != "" {
+			return m
+		}
+		if m, _ := e.six("after the caller changed the elements of the input in place: ", s, base, size2); m != "" {
+			return m
+		}
 	}
 	e.evals += e3.evals
 	if m := e3.unchanged(back3); m != "" {
